@@ -44,28 +44,28 @@ func doConfig(repo, outDir string) {
 		}
 	}
 	cfns := funcs(cfiles)
-	fd, found := cfns["NewConfigFromFile"]
+	_, found := cfns["NewConfigFromFile"]
 	if !found {
 		fail("config.allow", "NewConfigFromFile not found")
 		ok = false
 	} else {
 		lists := map[string][]string{}
-		ast.Inspect(fd.Body, func(n ast.Node) bool {
-			as, isAs := n.(*ast.AssignStmt)
-			if !isAs || len(as.Lhs) != 1 || len(as.Rhs) != 1 {
-				return true
-			}
-			cl, isCl := as.Rhs[0].(*ast.CompositeLit)
-			id, isId := as.Lhs[0].(*ast.Ident)
-			if !isCl || !isId {
-				return true
+		// the allow-lists: map literals with constant keys, assigned in the function body or hoisted into
+		// package-level variables (found anywhere in the package by name)
+		takeMap := func(name string, e ast.Expr) {
+			cl, isCl := e.(*ast.CompositeLit)
+			if !isCl {
+				return
 			}
 			if _, isMap := cl.Type.(*ast.MapType); !isMap {
-				return true
+				return
 			}
 			vals := []string{}
 			for _, el := range cl.Elts {
-				kv := el.(*ast.KeyValueExpr)
+				kv, isKv := el.(*ast.KeyValueExpr)
+				if !isKv {
+					return
+				}
 				key := exprString(kv.Key)
 				if v, isConst := consts[key]; isConst {
 					key = v
@@ -77,9 +77,27 @@ func doConfig(repo, outDir string) {
 				}
 			}
 			sort.Strings(vals)
-			lists[id.Name] = vals
-			return true
-		})
+			lists[name] = vals
+		}
+		for _, f := range cfiles {
+			ast.Inspect(f, func(n ast.Node) bool {
+				switch v := n.(type) {
+				case *ast.AssignStmt:
+					if len(v.Lhs) == 1 && len(v.Rhs) == 1 {
+						if id, isId := v.Lhs[0].(*ast.Ident); isId {
+							takeMap(id.Name, v.Rhs[0])
+						}
+					}
+				case *ast.ValueSpec:
+					for i, nm := range v.Names {
+						if i < len(v.Values) {
+							takeMap(nm.Name, v.Values[i])
+						}
+					}
+				}
+				return true
+			})
+		}
 		for _, name := range []string{"allowedMemModels", "allowedCpuModels", "allowedAsmTypes"} {
 			v, have := lists[name]
 			if !have {
@@ -250,20 +268,66 @@ func callBefore(fd *ast.FuncDecl, first, second string) (bool, error) {
 	return i1 >= 0 && i1 < i2, nil
 }
 
+// pkgRegexVars: package-level `var x = regexp.MustCompile(<literal>)` of all packages read so far
+var pkgRegexVars = map[string]string{}
+
+func collectRegexVars(files map[string]*ast.File) {
+	for _, f := range files {
+		for _, d := range f.Decls {
+			gd, ok := d.(*ast.GenDecl)
+			if !ok || gd.Tok != token.VAR {
+				continue
+			}
+			for _, sp := range gd.Specs {
+				vs, ok := sp.(*ast.ValueSpec)
+				if !ok {
+					continue
+				}
+				for i, n := range vs.Names {
+					if i < len(vs.Values) {
+						if c, ok := vs.Values[i].(*ast.CallExpr); ok && exprString(c.Fun) == "regexp.MustCompile" && len(c.Args) == 1 {
+							if bl, ok := c.Args[0].(*ast.BasicLit); ok {
+								pkgRegexVars[f.Name.Name+"."+n.Name] = strings.Trim(bl.Value, "`\"")
+							}
+						}
+					}
+				}
+			}
+		}
+	}
+}
+
+// regexLiterals: the regular expressions a function uses — compiled in its body or hoisted into package-level
+// variables it refers to — as a sorted set (the order of use is not a fact the model depends on)
 func regexLiterals(fd *ast.FuncDecl) []string {
-	res := []string{}
+	set := map[string]bool{}
 	ast.Inspect(fd.Body, func(n ast.Node) bool {
 		if c, ok := n.(*ast.CallExpr); ok && exprString(c.Fun) == "regexp.MustCompile" && len(c.Args) == 1 {
 			if bl, ok := c.Args[0].(*ast.BasicLit); ok {
-				res = append(res, strings.Trim(bl.Value, "`\""))
+				set[strings.Trim(bl.Value, "`\"")] = true
 			} else {
-				res = append(res, "<"+exprString(c.Args[0])+">")
+				set["<"+exprString(c.Args[0])+">"] = true
+			}
+		}
+		if id, ok := n.(*ast.Ident); ok {
+			for k, v := range pkgRegexVars {
+				if strings.HasSuffix(k, "."+id.Name) && pkgOfFunc[fd] == strings.TrimSuffix(k, "."+id.Name) {
+					set[v] = true
+				}
 			}
 		}
 		return true
 	})
+	res := []string{}
+	for k := range set {
+		res = append(res, k)
+	}
+	sort.Strings(res)
 	return res
 }
+
+// pkgOfFunc: the package name of every function declaration seen by funcs()
+var pkgOfFunc = map[*ast.FuncDecl]string{}
 
 func doMisc(repo, outDir string) {
 	var b strings.Builder
